@@ -360,6 +360,22 @@ func init() {
 		Old:    "\t\t\tnew_p := process.NewProcess(p.proc.Body, []process.Name{{Ident: fmt.Sprintf(\"exec%d\", execCount), IsSelf: true}}, function.Type, process.LINEAR, p.position)\n\t\t\tprocesses = append(processes, new_p)",
 		New:    "\t\t\tnew_p := process.NewProcess(p.proc.Body, []process.Name{{Ident: fmt.Sprintf(\"exec%d\", execCount), IsSelf: true}}, function.Type, process.LINEAR, p.position)\n\t\t\tif execCount < 2 {\n\t\t\t\tprocesses = append(processes, new_p)\n\t\t\t}",
 		Expect: "kind:EXEC_DEF"})
+	addFixture(Fixture{Name: "reader-skips-carriage-returns", Rule: "R-READ-DELIVERS", File: "parser/scanner.go",
+		Old:    "\tif ch == '\\n' {\n\t\ts.pos.Lines = append(s.pos.Lines, s.pos.Char)",
+		New:    "\tif ch == '\\r' {\n\t\tch, _, _ = s.r.ReadRune()\n\t}\n\tif ch == '\\n' {\n\t\ts.pos.Lines = append(s.pos.Lines, s.pos.Char)",
+		Expect: "(*parser.scanner).read | one-rune-per-call"})
+	addFixture(Fixture{Name: "equals-lookahead-not-put-back", Rule: "R-LOOKAHEAD-KEPT", File: "parser/scanner.go",
+		Old:    "\t\t\t// is just =\n\t\t\ts.unread()\n",
+		New:    "\t\t\t// is just =\n",
+		Expect: "(*parser.scanner).scanSpecialSymbol | read#1"})
+	addFixture(Fixture{Name: "closed-provider-unmarked-in-place", Rule: "R-SHARED-ELEMS", File: "process/transition.go",
+		Old:    "func closeProviders(providers []Name) {\n",
+		New:    "func closeProviders(providers []Name) {\n\tif len(providers) > 0 {\n\t\tproviders[0].IsSelf = false\n\t}\n",
+		Expect: "process.closeProviders | element-store"})
+	addFixture(Fixture{Name: "line-skip-ends-on-a-class-the-sentinel-is-not-in", Rule: "R-LOOP-EOF", File: "parser/scanner.go",
+		Old:    "\t\tif ch := s.read(); ch == '\\n' || ch == eof {\n\t\t\tbreak\n\t\t}",
+		New:    "\t\tif ch := s.read(); isAlphaNum(ch) {\n\t\t\tbreak\n\t\t}",
+		Expect: "(*parser.scanner).skipToEOL | loop#1"})
 	addFixture(Fixture{Name: "line-table-copied-per-newline", Rule: "R-PER-RUNE-CONST", File: "parser/scanner.go",
 		Old:    "\t\ts.pos.Lines = append(s.pos.Lines, s.pos.Char)",
 		New:    "\t\ts.pos.Lines = append(append([]int{}, s.pos.Lines...), s.pos.Char)",
